@@ -123,7 +123,7 @@ theorem chanOpen_erase_false {s s' : St} (ha : Acct s) (hri : RouteInv s) {t c :
 
 theorem drvOp_abandon_closes (s : St) (ha : Acct s) (hri : RouteInv s) (i : Nat) (rest : List Nat) (o : Op) (t c : Nat)
     (hr : s.drv = .running) (hq : s.opQ = i :: rest) (ho : s.ops[i]? = some o) (hk : o.kind = .abandon (t : Int))
-    (hin : s.inUse.contains o.id = true) (hmem : (t, c) ∈ s.searchmap) :
+    (hin : s.inUse.contains o.id = true) (hmem : (t, c) ∈ s.searchmap) (hsk : s.sinkClosed = false) :
     ∃ s', Conn.step s (.drvOp true) = some (s', .none) ∧ chanOpen s' c = false ∧ s'.chans = s.chans ∧
       ResKeep s.ops s'.ops ∧ s'.drv = .running := by
   have hst : ∃ s', Conn.step s (.drvOp true) = some (s', .none) ∧ s'.chans = s.chans ∧ s'.drv = .running ∧
@@ -131,7 +131,7 @@ theorem drvOp_abandon_closes (s : St) (ha : Acct s) (hri : RouteInv s) (i : Nat)
       s'.ops = modifyOp (dropSenderOpt (s.ops.set i { o with phase := .taken }) (lookup s.resultmap (t : Int))) i
         (fun o => { o with mail := .ack }) := by
     have hne : (s.drv ≠ .running) = False := by simp [hr]
-    simp only [Conn.step, hne, if_false, hq, ho, hk, hin, Bool.not_true, Bool.false_eq_true]
+    simp only [Conn.step, hne, if_false, hq, ho, hk, hin, hsk, Bool.not_true, Bool.false_eq_true]
     exact ⟨_, rfl, rfl, hr, rfl, rfl, rfl⟩
   obtain ⟨s', hs, hc, hd, hsm, hq', hops⟩ := hst
   have htame : Tame s.ops s'.ops := by
